@@ -92,6 +92,7 @@ func Reset() {
 	originTerm = map[int]*Term{}
 	sliceOrigin = map[int][]origin{}
 	rotTreeMemo = map[int]int{}
+	extractBusy = map[[3]int]bool{}
 	nextID = 1
 	True = mk(&Term{K: KTrue})
 	False = mk(&Term{K: KFalse})
@@ -869,6 +870,12 @@ type origin struct {
 
 var sliceOrigin = map[int][]origin{}
 
+// extractBusy holds the extractions being computed. An extraction may delegate to a Concat of
+// slices (sign extension or extraction of a concatenation: Extract(Sext(Concat(x, y)), hi, lo)),
+// and the slice fusion in Concat must not rebuild that very extraction from a recorded origin:
+// it is not memoised yet and the two functions would call each other forever.
+var extractBusy = map[[3]int]bool{}
+
 func originsOf(q *Term) []origin {
 	if q.K == KExtract {
 		return append([]origin{{q.Args[0], q.Hi, q.Lo}}, sliceOrigin[q.ID]...)
@@ -892,7 +899,9 @@ func Extract(a *Term, hi, lo int) *Term {
 	if r, ok := extractMemo[k]; ok {
 		return r
 	}
+	extractBusy[k] = true
 	r := extract1(a, hi, lo)
+	delete(extractBusy, k)
 	extractMemo[k] = r
 	if isBitwise(a) {
 		// rotation recognition (rotOf): first bitwise origin of a pushed-down extraction
@@ -1140,6 +1149,9 @@ func Concat(parts ...*Term) *Term {
 			if p.K != KConst {
 				fused := false
 				for _, o := range originsOf(q) {
+					if extractBusy[[3]int{o.a.ID, o.hi, o.lo - p.W}] || extractBusy[[3]int{o.a.ID, o.lo - 1, o.lo - p.W}] {
+						continue // this Concat is (part of) the definition of that slice
+					}
 					if o.lo >= p.W && Extract(o.a, o.lo-1, o.lo-p.W) == p {
 						out[n-1] = Extract(o.a, o.hi, o.lo-p.W)
 						fused = true
